@@ -57,7 +57,10 @@ PROPS = {
     'C09': {'search': 'c09', 'scope': scope_funcs(names={'validate', 'guess_type', 'guess_country'}, modules={
         'stdnum.eu.vat', 'stdnum.vatin', 'stdnum.us.tin', 'stdnum.be.ssn', 'stdnum.th.tin', 'stdnum.es.nif', 'stdnum.iban'})},
     'C10': {'search': 'c10', 'corr': ['numdb.py']},
-    'C11': {'search': 'c11'},
+    'C11': {'search': 'c11', 'corr': ['numdb.py'], 'scope': scope_funcs(modules={
+        'stdnum.at.postleitzahl', 'stdnum.at.businessid', 'stdnum.be.iban', 'stdnum.cz.bankaccount', 'stdnum.my.nric', 'stdnum.us.ein',
+        'stdnum.isil', 'stdnum.isbn', 'stdnum.iban', 'stdnum.cfi', 'stdnum.cn.ric', 'stdnum.imsi', 'stdnum.eu.nace', 'stdnum.id.npwp',
+        'stdnum.nz.bankaccount'})},
     'C12': {'search': 'c12', 'scope': scope_funcs(names={'info', 'split'}, prefixes=['get_'])},
     'C13': {'search': 'c13'},
     'C14': {'search': 'c14', 'scope': scope_funcs(modules={'stdnum.util'})},
